@@ -9,3 +9,10 @@ import TlxVerif.Props.C04
 #print axioms TlxVerif.C04.proto_orig_D24_no_subjob
 #print axioms TlxVerif.C04.proto_orig_D24_child_last
 #print axioms TlxVerif.C04.proto_orig_loop_uaf
+#print axioms TlxVerif.C04.key_order
+#print axioms TlxVerif.C04.key_lcp
+#print axioms TlxVerif.C04.key_equal_deeper
+#print axioms TlxVerif.C04.key_equal_done
+#print axioms TlxVerif.C04.key_read_in_bounds
+#print axioms TlxVerif.C04.subjobs_write_disjoint
+#print axioms TlxVerif.C04.subjobs_order_irrelevant
